@@ -11,11 +11,15 @@ THREAD_READS = [('lib_guesser/status_report.py', 'StatusReport.print_status'), (
                 ('lib_guesser/status_report.py', 'StatusReport._print_guess'), ('lib_guesser/status_report.py', 'StatusReport._print_time'),
                 ('lib_guesser/status_report.py', 'StatusReport._calc_running_time'), ('lib_guesser/pcfg_grammar.py', 'PcfgGrammar.get_status')]
 
+# the output point and the functions that generate guesses or move the session: a status / help request must not call them
+WRITERS = ('print_guess', 'write_guess_to_file', 'create_guesses', '_recursive_guesses', 'omen_generate_guesses', 'next_guess', 'insert_queue',
+           '_save_session', 'save_session', 'restore_prob_order', 'random_walk')
+
 
 def thread_frame(repo):
     """what the keyboard thread runs on a status/help request only reads the state it shares with the generation loop"""
     from pyvc import effects
-    recs = effects.readonly_frame(repo, THREAD_READS, tag='thread.readonly')
+    recs = effects.readonly_frame(repo, THREAD_READS, tag='thread.readonly', forbidden_calls=WRITERS)
     # ... and writes nothing to stdout (a status line in the guess stream alters it exactly when a request arrives)
     recs += [r for r in effects.stdout_frame(repo, ['lib_guesser/status_report.py'], {})]
     for r in recs:
